@@ -304,7 +304,8 @@ class FeatNormalizerList:
 
     def _get_drho_and_dinh(self, X0T, DX0T):
         rho = np.maximum(X0T[0], self.cutoff)
-        drho = DX0T[0]
+        # below the cutoff the density is clamped, so nothing varies with it
+        drho = np.where(X0T[0] < self.cutoff, 0.0, DX0T[0])
         grad = X0T[1]
         dgrad = DX0T[1]
         if self.slmode == "npa":
@@ -361,8 +362,9 @@ class FeatNormalizerList:
         rho_term, inh_term = self._get_rho_and_inh(X0T)
         dfdrho = np.zeros_like(rho_term)
         dfdinh = np.zeros_like(inh_term)
-        cond = rho_term < self.cutoff
-        rho_term[cond] = self.cutoff
+        # rho_term is clamped to the cutoff by _get_rho_and_inh: where the raw
+        # density is below it, the normalized features do not depend on it
+        cond = X0T[:, 0] < self.cutoff
         nfeat = self.nfeat
         for i in range(nfeat):
             if self[i] is not None:
@@ -377,20 +379,19 @@ class FeatNormalizerList:
                 )
             else:
                 df_dX0T[:, i] = df_dX0TN[:, i]
+        dfdrho[cond] = 0.0
         df_dX0T[:, 0] += dfdrho
         if self.slmode == "npa":
             df_dX0T[:, 1] += 5.0 / 3 * dfdinh
             df_dX0T[:, 2] += dfdinh
         elif self.slmode == "nst":
-            df_dX0T[:, 0] -= dfdinh * 5.0 / 3 * inh_term / rho_term
+            df_dX0T[:, 0] -= np.where(cond, 0.0, dfdinh * 5.0 / 3 * inh_term / rho_term)
             df_dX0T[:, 2] += dfdinh / (CFC * rho_term ** (5.0 / 3))
         elif self.slmode == "np":
             df_dX0T[:, 1] += 5.0 / 3 * dfdinh
         else:
-            df_dX0T[:, 0] -= dfdinh * 8.0 / 3 * inh_term / rho_term
+            df_dX0T[:, 0] -= np.where(cond, 0.0, dfdinh * 8.0 / 3 * inh_term / rho_term)
             df_dX0T[:, 1] += dfdinh / (8 * CFC * rho_term ** (8.0 / 3))
-        for s in range(cond.shape[0]):
-            df_dX0T[s, ..., cond[s]] = 0.0
         return df_dX0T
 
     def ueg_vector(self, rho=1.0):
